@@ -50,7 +50,7 @@ class _Derive:
     # state: parts list, facts dict expr-text -> const, defs var -> expr
     def _fork(self, st):
         return {'parts': list(st['parts']), 'facts': dict(st['facts']), 'defs': dict(st['defs']),
-                'done': st['done']}
+                'done': st['done'], 'ver': dict(st.get('ver', {})), 'snap': dict(st.get('snap', {}))}
 
     def _block(self, stmts, st, top=False):
         """Returns list of states after the block (states with done=True have returned)."""
@@ -94,6 +94,11 @@ class _Derive:
                 for k in [k for k in st['facts'] if _mentions(k, name)]:
                     del st['facts'][k]
                 st['defs'][name] = s.value
+                # versions of the names the definition mentions, to resolve temporaries soundly later
+                ver = st.setdefault('ver', {})
+                ver[name] = ver.get(name, 0) + 1
+                st.setdefault('snap', {})[name] = {n.id: ver.get(n.id, 0) for n in ast.walk(s.value)
+                                                    if isinstance(n, ast.Name) and n.id != name}
                 if isinstance(s.value, ast.List) and not s.value.elts and self.list_var is None:
                     pass
             elif isinstance(s, ast.AugAssign) and isinstance(s.target, ast.Name):
@@ -277,7 +282,31 @@ class _Derive:
             return st['facts'][f'len({txt})']
         return self._static_len(e, st)
 
+    def _through_temp(self, e, st):
+        """A plain local that was assigned a call expression and whose inputs have not been rebound since
+        stands for that expression (`t = len(v).to_bytes(1, 'big'); args.append(t)`)."""
+        hops = 0
+        while isinstance(e, ast.Name) and hops < 3:
+            d = st['defs'].get(e.id)
+            snap = st.get('snap', {}).get(e.id)
+            ver = st.get('ver', {})
+            if not isinstance(d, ast.Call) or snap is None or any(ver.get(k, 0) != v for k, v in snap.items()):
+                break
+            if any(isinstance(n, ast.Name) and n.id == e.id for n in ast.walk(d)):
+                break               # self-referential rebinding (val = f(val)): keep the variable identity
+            e = d
+            hops += 1
+        return e
+
     def _classify(self, e, st) -> list[_Part]:
+        e2 = self._through_temp(e, st)
+        if e2 is not e:
+            r = self._classify_core(e2, st)
+            if r and r[0].kind in ('prefix', 'fixed'):
+                return r
+        return self._classify_core(e, st)
+
+    def _classify_core(self, e, st) -> list[_Part]:
         # len(V).to_bytes(k, 'big')  -> prefix for V
         if isinstance(e, ast.Call) and isinstance(e.func, ast.Attribute) and e.func.attr == 'to_bytes' and e.args \
                 and isinstance(e.args[0], ast.Constant) and isinstance(e.args[0].value, int):
@@ -394,14 +423,13 @@ def run(w: World, rep: Report):
                 label_case[l] = c
     pn = w.repo.func('parsing', 'parse_next')
     block_labels = {}
-    for n in ast.walk(pn.node):
-        if isinstance(n, ast.If) and isinstance(n.test, ast.Compare) and len(n.test.ops) == 1 and \
-                isinstance(n.test.ops[0], ast.Eq) and isinstance(n.test.comparators[0], ast.Constant) and \
-                isinstance(n.test.comparators[0].value, str):
-            lab = n.test.comparators[0].value
-            for x in ast.walk(ast.Module(body=n.body, type_ignores=[])):
-                if isinstance(x, ast.Call) and isinstance(x.func, ast.Name) and x.func.id in BLOCK_PARSERS:
-                    block_labels[lab] = x.func.id
+    pcfg = w.cfg(pn)
+    for bn, bc in pcfg.nodes_with_call(lambda c: isinstance(c.func, ast.Name) and c.func.id in BLOCK_PARSERS):
+        # the symbol equality that holds on every path to the call, whatever the if/else orientation
+        for t, pol in pcfg.dominating_conditions(bn):
+            if pol is True and isinstance(t.ast, ast.Compare) and len(t.ast.ops) == 1 and isinstance(t.ast.ops[0], ast.Eq) \
+                    and isinstance(t.ast.comparators[0], ast.Constant) and isinstance(t.ast.comparators[0].value, str):
+                block_labels[t.ast.comparators[0].value] = bc.func.id
     BLOCK_MAP = {'OP_IF': ['OP_IF', 'OP_IF_ELSE'], 'OP_TRY': ['OP_TRY_EXCEPT'], 'OP_DEF': ['OP_DEF'],
                  'OP_LOOP': ['OP_LOOP']}
     covered_by_block = {}
@@ -592,29 +620,49 @@ def _terminators(w: World, rep: Report, fi, endtok: str):
                             toks.add(v)
         return toks
 
-    def walk_if(node):
-        nonlocal found
-        if not isinstance(node, ast.If):
-            return
-        toks = term_tokens(node.test)
-        if toks:
-            # all paths through this branch body: count of `index += k` before break/loop exit
-            for tok in sorted(toks):
-                found += 1
-                advs = _advances(node.body, idx_var)
-                ok = advs == {1}
-                why = ''
-                if not ok:
-                    why = (f'branch recognising `{tok}` advances the symbol index by {sorted(advs)} '
-                           f'(expected exactly 1): a following symbol is ' +
-                           ('silently dropped' if any(a > 1 for a in advs) else 're-read'))
-                rep.check('C11.R3', f'{fi.key}|terminator|{tok}', ok, line=node.lineno, file=RELP, why=why,
-                          facts={'advances': sorted(advs)})
-        for e in node.orelse:
-            walk_if(e)
+    # CFG form: the *true* edge of every test that compares the current symbol with `}` / the END_ token
+    # (whatever the if/else orientation or `not` spelling) leads, on every path up to leaving the loop or
+    # re-entering its head, through exactly one `index += 1`
+    cfg = w.cfg(fi)
+    lp2 = [n for n in ast.walk(ast.Module(body=cfg.body, type_ignores=[])) if isinstance(n, ast.While)]
+    if not lp2:
+        raise AnalysisError(f'{fi.key}: main loop not found in the CFG body')
+    lp2 = lp2[0]
 
-    for st in lp.body:
-        walk_if(st)
+    def in_loop_body(nd):
+        return nd.ast is not None and nd.stmt is not lp2 and any(a is lp2 for a in cfg.ancestors(nd.ast))
+
+    def adv_of(nd):
+        a = nd.ast
+        if nd.kind == 'stmt' and isinstance(a, ast.AugAssign) and isinstance(a.target, ast.Name) and a.target.id == idx_var:
+            if isinstance(a.op, ast.Add) and isinstance(a.value, ast.Constant) and isinstance(a.value.value, int):
+                return a.value.value
+            return 99
+        if nd.kind == 'stmt' and isinstance(a, ast.Assign) and any(isinstance(t, ast.Name) and t.id == idx_var for t in a.targets):
+            return 99
+        return 0
+    for t in cfg.nodes:
+        if t.kind != 'test' or not in_loop_body(t):
+            continue
+        toks = term_tokens(t.ast)
+        if not toks:
+            continue
+        for tok in sorted(toks):
+            advs = set()
+            for s2, lab in t.succ:
+                if lab is not True:
+                    continue
+                for path in cfg.paths(s2, lambda nd: not in_loop_body(nd), cap=2000):
+                    advs.add(sum(adv_of(nd) for nd, _ in path if in_loop_body(nd)))
+            found += 1
+            ok = advs == {1}
+            why = ''
+            if not ok:
+                why = (f'branch recognising `{tok}` advances the symbol index by {sorted(advs)} '
+                       f'(expected exactly 1): a following symbol is ' +
+                       ('silently dropped' if any(a > 1 for a in advs) else 're-read'))
+            rep.check('C11.R3', f'{fi.key}|terminator|{tok}', ok, line=t.line, file=RELP, why=why,
+                      facts={'advances': sorted(advs)})
     if found == 0:
         raise AnalysisError(f'{fi.key}: no terminator branch recognised')
 
